@@ -130,6 +130,7 @@ type Sim struct {
 	Sched      []SchedRun
 	Steps      int
 	last       *thread
+	runLen     int // consecutive steps given to last
 	conds      map[*sync.Cond][]*thread
 	keys       map[any]*thread
 	pools      map[*sync.Pool][]any
@@ -859,6 +860,18 @@ func (s *Sim) pick(elig []*thread, ci int) int {
 			elig[ci].prio = s.pctLow // a yielding thread drops below everyone (PCT's treatment of yield)
 			s.pctLow--
 		}
+		// weak fairness: strict priorities let the top thread run for ever, which
+		// turns a retry loop that waits for another thread's next store (a CAS
+		// retried on a stale ticket, with no runtime.Gosched in it) into an
+		// endless run that no fair scheduler produces. A thread that has had far
+		// more consecutive steps than a whole run is expected to take is treated
+		// like one that yielded.
+		if ci >= 0 && len(cand) > 1 && s.runLen >= max(1000, 4*s.cfg.EstSteps) {
+			elig[ci].prio = s.pctLow
+			s.pctLow--
+			s.runLen = 0
+			s.Stats["pct-fairness-demotion"]++
+		}
 		best := cand[0]
 		for _, i := range cand {
 			if elig[i].prio > elig[best].prio {
@@ -1052,6 +1065,11 @@ func Run(cfg Config, main func()) *Sim {
 		if t != s.last && s.last != nil {
 			s.Stats["switches"]++
 			s.pairs[uint64(uint32(s.lastSite))<<32|uint64(uint32(t.site))] = struct{}{}
+		}
+		if t == s.last {
+			s.runLen++
+		} else {
+			s.runLen = 0
 		}
 		s.last = t
 		s.lastSite = t.site
